@@ -583,6 +583,9 @@ impl Mode for StepMode {
                 }
             }
             "C07" => self.gen_all_words(ctx, &mut rng, emit),
+            "C14" => self.gen_syscalls(ctx, &mut rng, emit),
+            "C15" => self.gen_adversarial(ctx, &mut rng, emit),
+            "C10" => self.gen_irq_programs(ctx, &mut rng, emit),
             _ => {}
         }
     }
@@ -794,7 +797,281 @@ impl StepMode {
     }
 }
 
+/// random valid UTF-8 text of exactly `len` bytes (ASCII, NUL, newline, backslash, 2-4 byte characters)
+pub fn utf8_text(rng: &mut Rng, len: usize) -> Vec<u8> {
+    let mut out: Vec<u8> = Vec::new();
+    while out.len() < len {
+        let room = len - out.len();
+        let c: char = match rng.below(10) {
+            0 => '\0',
+            1 => '\n',
+            2 => '\\',
+            3 if room >= 2 => char::from_u32(0x80 + rng.below(0x780) as u32).unwrap_or('é'),
+            4 if room >= 3 => char::from_u32(0x3040 + rng.below(0x60) as u32).unwrap_or('あ'),
+            5 if room >= 4 => char::from_u32(0x1f600 + rng.below(0x40) as u32).unwrap_or('😀'),
+            6 => ':',
+            _ => (0x20 + rng.below(0x5f) as u8) as char,
+        };
+        let mut buf = [0u8; 4];
+        let e = c.encode_utf8(&mut buf);
+        if e.len() <= room {
+            out.extend_from_slice(e.as_bytes());
+        }
+    }
+    out
+}
+
 impl StepMode {
+    /// C10: main program + handlers ending in RTE, requests injected at arbitrary instruction boundaries
+    fn gen_irq_programs(&self, ctx: &Ctx, rng: &mut Rng, emit: &mut dyn FnMut(String)) {
+        let n = if ctx.quick() { 3000 } else { 40000 } / ctx.nshards;
+        for _ in 0..n {
+            let mut c = CaseB::new();
+            c.er = rand_regs(rng);
+            // mostly unmasked at the start; sometimes masked throughout (requests must then stay pending)
+            c.ccr = if rng.chance(1, 6) { rng.u8() | 0x80 } else { rng.u8() & 0x7f };
+            c.er[7] = (if rng.chance(1, 2) { 0xffe800 } else { 0x41f000 } + 4 * rng.below(64) as u32) | if rng.chance(1, 4) { (rng.u8() as u32) << 24 } else { 0 };
+            let base: u32 = if rng.chance(1, 2) { 0xffc000 } else { 0x416900 } + 0x400 * rng.below(4) as u32;
+            // main: a counted loop over a few ALU instructions on ER0-ER3, then a self-loop
+            let mut ws: Vec<u16> = Vec::new();
+            let body = rng.range(1, 5) as usize;
+            c.er[4] = (c.er[4] & 0xffff0000) | rng.range(1, 6) as u32; // loop counter in R4
+            let alu: [u16; 10] = [0x0801, 0x0912, 0x0a81, 0x1823, 0x0b02, 0x1b51, 0x1002, 0x1193, 0x1603, 0x0c10];
+            for _ in 0..body {
+                ws.push(*rng.pick(&alu));
+            }
+            ws.push(0x1b54); // DEC.W #1,R4
+            let back = -(2 * (body as i32 + 2));
+            ws.push(0x4600 | (back as u8 as u16)); // BNE loop
+            if rng.chance(1, 2) {
+                // a call to a leaf that the interrupts may land in
+                ws.push(0x5500 | 0x04); // BSR +4  -> skips the next two instructions
+                ws.push(0x40fe); // BRA . (end of main, reached after the leaf returns)
+                ws.push(0x0b03); // (skipped)
+                ws.push(0x0a0b); // leaf: INC.B R3L
+                ws.push(0x5470); // RTS
+            } else {
+                ws.push(0x40fe); // BRA .
+            }
+            c.put_words(base, &ws);
+            c.pc = base;
+            // handlers
+            let nv = rng.range(1, 4) as usize;
+            let mut vectors: Vec<u8> = Vec::new();
+            for k in 0..nv {
+                let v = loop {
+                    let v = rng.range(1, 63) as u8;
+                    if !vectors.contains(&v) {
+                        break v;
+                    }
+                };
+                vectors.push(v);
+                let h = 0xffd800 + 0x20 * k as u32;
+                let hbody: Vec<u16> = match rng.below(3) {
+                    0 => vec![0x5670],                         // RTE only
+                    1 => vec![0x0a0e, 0x5670],                 // INC.B R6L ; RTE
+                    _ => vec![0x0b05, 0x0a0e, 0x0b05, 0x5670], // ADDS #1,ER5 ; INC.B R6L ; ADDS #1,ER5 ; RTE
+                };
+                c.put_words(h, &hbody);
+                c.put(4 * v as u32, &[rng.u8(), (h >> 16) as u8, (h >> 8) as u8, h as u8]);
+            }
+            // schedule: bursts, repeats, requests while handlers run
+            let steps = rng.range(20, 120) as u32;
+            let nreq = rng.range(0, 10);
+            let mut sched: Vec<(u32, u8)> = Vec::new();
+            let mut k = 0u32;
+            for _ in 0..nreq {
+                if !rng.chance(1, 3) {
+                    k += rng.below(12) as u32;
+                }
+                if k >= steps {
+                    break;
+                }
+                sched.push((k, *rng.pick(&vectors)));
+            }
+            c.n = steps;
+            c.irq = Some(sched);
+            emit(c.line());
+            // the same program without any request (transparency reference)
+            let mut c0 = c.clone();
+            c0.irq = Some(vec![]);
+            emit(c0.line());
+        }
+    }
+
+    /// C15: arbitrary words x adversarial register files x CCR x bus settings, from every mapped region incl. its last bytes
+    fn gen_adversarial(&self, ctx: &Ctx, rng: &mut Rng, emit: &mut dyn FnMut(String)) {
+        const EDGE: [u32; 30] = [
+            0, 1, 2, 3, 4, 5, 0xffffffff, 0xfffffffe, 0xfffffffd, 0xfffffffc, 0x00ffffff, 0x01000000, 0xffbf20, 0xffbf1f, 0xffbf21, 0xffff1f, 0xffff20,
+            0x400000, 0x3fffff, 0x5fffff, 0x600000, 0xff, 0x100, 0xfee000, 0xfee0ff, 0xffffe9, 0xffffea, 0x80000000, 0x7fffffff, 0x5ffffd,
+        ];
+        const CODE_ENDS: [u32; 14] = [0xffff1e, 0xffff1c, 0xffff1a, 0x5ffffe, 0x5ffffc, 0x5ffffa, 0xfe, 0xfc, 0xfee0fe, 0xffffe8, 0xffbf20, 0x400000, 0x0, 0xfee000];
+        let quick = ctx.quick();
+        let stride: u32 = if quick { 2 } else { 1 };
+        let mut idx = 0u64;
+        let adv_regs = |rng: &mut Rng| -> [u32; 8] {
+            let mut er = [0u32; 8];
+            for e in er.iter_mut() {
+                *e = match rng.below(4) {
+                    0 => interesting32(rng),
+                    _ => *rng.pick(&EDGE),
+                };
+            }
+            er
+        };
+        for w0 in 0..=0xffffu32 {
+            if (w0 + ctx.seed as u32) % stride != 0 {
+                continue;
+            }
+            for rep in 0..(if quick { 2 } else { 8 }) {
+                idx += 1;
+                if !ctx.mine(idx) {
+                    continue;
+                }
+                let mut c = CaseB::new();
+                c.er = adv_regs(rng);
+                c.ccr = rng.u8();
+                c.bsc = if rng.chance(1, 2) { RESET_BSC } else { [rng.u8(), rng.u8(), rng.u8(), rng.u8(), rng.u8()] };
+                c.pc = if rep % 2 == 0 { *rng.pick(&CODE_ENDS) } else { code_addr(rng, 2) };
+                let tail = [rng.u16(), if rng.chance(1, 2) { 0x6ba0 } else { rng.u16() }, rng.u16(), rng.u16()];
+                c.put_words(c.pc, &[w0 as u16, tail[0], tail[1], tail[2], tail[3]]);
+                // vectors / frames with adversarial contents so that control transfers go to bad places too
+                if rng.chance(1, 4) {
+                    let v = *rng.pick(&EDGE);
+                    c.put((rng.below(64) * 4) as u32, &v.to_be_bytes());
+                }
+                c.n = if rng.chance(1, 4) { rng.range(2, 5) as u32 } else { 1 };
+                emit(c.line());
+            }
+        }
+        // every valid form with adversarial registers (so that the dangerous handlers are hit often)
+        let forms: Vec<Form> = self.forms.iter().filter(|f| f.valid).cloned().collect();
+        for form in &forms {
+            for _ in 0..(if quick { 300 } else { 3000 }) {
+                idx += 1;
+                if !ctx.mine(idx) {
+                    continue;
+                }
+                let mut c = instance(form, rng, GenOpt { wild_addr: true, vary_bsc: true, vector_data: true }, &BTreeMap::new());
+                let keep = c.er;
+                c.er = adv_regs(rng);
+                // keep about half of the well-formed operand registers
+                for i in 0..8 {
+                    if rng.chance(1, 2) {
+                        c.er[i] = keep[i];
+                    }
+                }
+                if rng.chance(1, 4) {
+                    c.bsc = [rng.u8(), rng.u8(), rng.u8(), rng.u8(), rng.u8()];
+                }
+                emit(c.line());
+            }
+        }
+        // system calls with adversarial argument blocks
+        for _ in 0..(if quick { 4000 } else { 40000 }) {
+            idx += 1;
+            if !ctx.mine(idx) {
+                continue;
+            }
+            let mut c = CaseB::new();
+            c.er = adv_regs(rng);
+            c.er[0] = *rng.pick(&[104u32, 113, 104, 113, 0, 0xffffffff]);
+            c.pc = code_addr(rng, 2);
+            c.put_words(c.pc, &[0x5700]);
+            if rng.chance(2, 3) {
+                let argp = 0xffd000 + 4 * rng.below(256) as u32;
+                c.er[1] = argp | if rng.chance(1, 4) { 0xff000000 } else { 0 };
+                for k in 0..3 {
+                    let v = if rng.chance(1, 2) { *rng.pick(&EDGE) } else { interesting32(rng) };
+                    c.put(argp + 4 * k, &v.to_be_bytes());
+                }
+            }
+            emit(c.line());
+        }
+    }
+
+    /// C14: TRAPA #0 system calls: write (104), set_handler (113) followed by an interrupt of that vector, other ids
+    fn gen_syscalls(&self, ctx: &Ctx, rng: &mut Rng, emit: &mut dyn FnMut(String)) {
+        let n = if ctx.quick() { 20_000 } else { 300_000 } / ctx.nshards;
+        for k in 0..n {
+            let mut c = CaseB::new();
+            c.er = rand_regs(rng);
+            c.ccr = rng.u8();
+            c.er[7] = data_addr(rng, 4, false).max(0x400040) & !3;
+            c.pc = code_addr(rng, 2);
+            c.put_words(c.pc, &[0x5700]);
+            // argument block in RAM or DRAM, away from the code
+            let argp = if rng.chance(1, 2) { 0xffd000 + 4 * rng.below(512) as u32 } else { 0x430000 + 4 * rng.below(4096) as u32 };
+            c.er[1] = argp;
+            match k % 10 {
+                0..=5 => {
+                    // write
+                    c.er[0] = 104;
+                    let len = match rng.below(6) {
+                        0 => 0,
+                        1 => rng.range(1, 4) as usize,
+                        2 => rng.range(1, 64) as usize,
+                        3 => 4096,
+                        _ => rng.range(1, 4096) as usize,
+                    };
+                    let buf = if rng.chance(1, 2) { 0xffc000 + rng.below(0x1000) as u32 } else { 0x440000 + rng.below(0x10000) as u32 };
+                    let buf = if buf >= 0xffc000 && buf + len as u32 > 0xffd000 { 0x440000 } else { buf };
+                    let text = if rng.chance(1, 25) {
+                        // invalid UTF-8 (outside the statement: model-only comparison)
+                        let mut t = utf8_text(rng, len.max(1));
+                        let i = rng.below(t.len() as u64) as usize;
+                        t[i] = 0xff;
+                        t
+                    } else {
+                        utf8_text(rng, len)
+                    };
+                    c.put(buf, &text);
+                    let fd = rng.u32();
+                    c.put(argp, &fd.to_be_bytes());
+                    c.put(argp + 4, &buf.to_be_bytes());
+                    c.put(argp + 8, &(text.len() as u32).to_be_bytes());
+                    if rng.chance(1, 8) {
+                        // a second call right behind the first
+                        c.put_words(c.pc + 2, &[0x5700]);
+                        c.n = 2;
+                    }
+                }
+                6..=8 => {
+                    // set_handler, then an interrupt of that vector at the next boundary
+                    c.er[0] = 113;
+                    let v: u32 = match rng.below(4) {
+                        0 => rng.below(256) as u32,
+                        1 => *rng.pick(&[0u32, 1, 63, 64, 255, 0x100, 0xffffffff]),
+                        _ => rng.range(1, 63) as u32,
+                    };
+                    let addr = if rng.chance(3, 4) { code_addr(rng, 2) } else { rng.u32() & 0x00ffffff & !1 };
+                    c.put(argp, &v.to_be_bytes());
+                    c.put(argp + 4, &addr.to_be_bytes());
+                    c.ccr &= 0x7f;
+                    c.n = 1;
+                    c.irq = Some(vec![(1, (v & 0xff) as u8)]);
+                    if v == 0 || v > 63 {
+                        // ignored vectors: the (tagged) vector table must stay as it is; interrupt a neighbour instead
+                        c.irq = Some(vec![(1, rng.range(1, 63) as u8)]);
+                    }
+                }
+                _ => {
+                    // unsupported call numbers must stop execution
+                    c.er[0] = match rng.below(4) {
+                        0 => 0,
+                        1 => 103,
+                        2 => 105,
+                        _ => rng.u32(),
+                    };
+                    if c.er[0] == 104 || c.er[0] == 113 {
+                        c.er[0] = 1;
+                    }
+                }
+            }
+            emit(c.line());
+        }
+    }
+
     /// registers that make memory operands mostly valid
     fn addr_regs(rng: &mut Rng) -> [u32; 8] {
         let mut er = [0u32; 8];
